@@ -9,9 +9,15 @@ CLAIMED = {
  "C03": ("Deductive proof (govc: VCs generated from go/ssa of /repo, discharged by z3/cvc5) of the parts of the property that are this repository's code: dispatch tables against the Supported*Algorithms lists, sentinel errors and no-output-on-error for every helper, PKCS#7 pad/unpad against RFC 5652 as quantified postconditions, AEAD plumbing (what is handed to Seal/Open and how the output is split), AES-CBC-HMAC-SHA2 structure per RFC 7518 (key split, MAC input order AD|IV|CT|AL, tag checked before decryption), key-wrap length/integrity facts. Primitive ciphers are assumed contracts.",
          "Assumes: libspec contracts of the standard library and jwx (listed in evidence trusted_base), govc's SSA->SMT encoding, solver soundness. Interop with independent implementations and strength of tamper rejection are reduced to 'code equals the spec functions' plus the primitives' assumed contracts; RFC 3394 functional correctness of aeskw is not proved.",
          "DESIGN.md §6 C03"),
+ "C04": ("Deductive proof that parsing and matching implement the documented cron rules: getBits equals the recursive bit-set spec for stepped ranges (bit-vector mode), getRange accepts exactly the documented forms with the documented value, getField is the union of its terms, normalizeFields accepts exactly the documented field counts and fills defaults/optionals on the documented side, the five descriptors equal their documented equivalents bit for bit, Parse wires the six fields in order and refuses empty specs, unknown zones, descriptors when disabled; dayMatches (and/or rule), Every and ConstantDelaySchedule.Next; the package tables are verified in the initializer.",
+         "Assumes contracts of strings/strconv/time (uninterpreted atoi/lower/split facts in /verif/libspec/strings_time.spec), int-view bridging of the bit-vector functions. The minimality/soundness of SpecSchedule.Next's calendar search depends on the time package's calendar arithmetic and is NOT proved (safety only); it is listed as not covered.",
+         "DESIGN.md §6 C04"),
  "C07": ("Deductive proof of absence of panics for the entry points under contract: every index, slice, nil-dereference, division, make, type-assertion and explicit-panic obligation generated from the SSA is discharged for all inputs, callee documented panics (CryptBlocks, NewCBCDecrypter, Seal, ed25519.Verify, ...) are excluded by proof; loops carry variants where stated.",
          "Assumes libspec contracts incl. their documented panics, address-space bound on lengths (2^56), govc's encoding. Entry points outside the contract files (reflection-based metadata/config decoding, time parsing, pem) are not covered and are listed in DESIGN.md.",
          "DESIGN.md §6 C07"),
+ "C08": ("Deductive proof of ownership and immutability contracts: the logger registry is only touched under its lock, NewLogger never replaces a registered logger and getLoggers hands out a fresh copy (monitor rule, all interleavings); cron's package-level tables and default parser are never written outside the verified initializer (frame obligations on every cron function).",
+         "Data-race freedom as such is not in this family; only lock-structured and frame-structured non-interference is proved. enc/v1 buffer-pool ownership and byteslicepool are covered when their contracts land (see evidence).",
+         "DESIGN.md §6 C08"),
  "C09": ("Deductive proof of the monitor invariant of the coalescing rate limiter's lock for all interleavings of lock-respecting goroutines: signals never exceed Adds, a signal is spawned only when something is pending, Add always records a pending event, first event of a window and the pending cap fire at once; option validation.",
          "Monitor rule for sync.RWMutex (mutual exclusion assumed). Timelines (when signals arrive), Close/WaitGroup joins and goroutine hand-offs are outside this family and not claimed.",
          "DESIGN.md §6 C09, §3"),
@@ -27,6 +33,9 @@ CLAIMED = {
  "C17": ("Deductive proof of frame obligations: every store, copy, in-place append and callee effect in the crypto helpers under contract targets memory allocated in the same activation or listed in the modifies clause (empty, or dst[len:cap] for the explicit AEAD destination); spare capacity is part of the goal.",
          "Assumes the frame clauses of library callees in /verif/libspec, govc's encoding, solver soundness.",
          "DESIGN.md §6 C17"),
+ "C18": ("Deductive proof against a ghost filesystem: the crash invariant (target absent, or a symlink to a complete version directory that is not the one being filled) is asserted after every filesystem call of Write, i.e. at every crash point, for every file map; no-crash postconditions; recoverability: a fresh Dir writing from any crash-reachable state succeeds when the individual os calls do not fail for external reasons.",
+         "Assumes the os/filepath contracts in /verif/libspec/os_fs.spec (POSIX rename atomicity, symlink semantics), completeness of Go's range over a map (listed), distinct time stamps, single writer.",
+         "DESIGN.md §6 C18"),
  "C20": ("Deductive proof of the 'never earlier' half for all interleavings: the watcher goroutine calls cancel() only when every member it tracked at its last look has ended or Cancel was called (loop invariant under the read lock, rely/guarantee across the lock gap, each writer section proved to satisfy the rely); Add/Cancel/Size against the sequential model of their critical section.",
          "Channel contract (a receive from a Done channel returns only once it is closed; select takes default only if no case is ready) and monitor rule assumed. Eventual cancellation and termination of the watcher are liveness and not claimed.",
          "DESIGN.md §6 C20, §3.4"),
